@@ -16,3 +16,12 @@ io/Registry.vos io/Registry.vok io/Registry.required_vos: io/Registry.v base/Jso
 io/RegistryFacts.vo io/RegistryFacts.glob io/RegistryFacts.v.beautified io/RegistryFacts.required_vo: io/RegistryFacts.v base/PyStr.vo base/PyStrFacts.vo base/Json.vo io/Registry.vo
 io/RegistryFacts.vio: io/RegistryFacts.v base/PyStr.vio base/PyStrFacts.vio base/Json.vio io/Registry.vio
 io/RegistryFacts.vos io/RegistryFacts.vok io/RegistryFacts.required_vos: io/RegistryFacts.v base/PyStr.vos base/PyStrFacts.vos base/Json.vos io/Registry.vos
+card/Markup.vo card/Markup.glob card/Markup.v.beautified card/Markup.required_vo: card/Markup.v base/PyStr.vo base/Json.vo base/Corr.vo
+card/Markup.vio: card/Markup.v base/PyStr.vio base/Json.vio base/Corr.vio
+card/Markup.vos card/Markup.vok card/Markup.required_vos: card/Markup.v base/PyStr.vos base/Json.vos base/Corr.vos
+card/Parser.vo card/Parser.glob card/Parser.v.beautified card/Parser.required_vo: card/Parser.v base/PyStr.vo base/Json.vo card/Markup.vo card/ParserCard.vo
+card/Parser.vio: card/Parser.v base/PyStr.vio base/Json.vio card/Markup.vio card/ParserCard.vio
+card/Parser.vos card/Parser.vok card/Parser.required_vos: card/Parser.v base/PyStr.vos base/Json.vos card/Markup.vos card/ParserCard.vos
+card/ParserCard.vo card/ParserCard.glob card/ParserCard.v.beautified card/ParserCard.required_vo: card/ParserCard.v base/PyStr.vo base/Json.vo card/Markup.vo
+card/ParserCard.vio: card/ParserCard.v base/PyStr.vio base/Json.vio card/Markup.vio
+card/ParserCard.vos card/ParserCard.vok card/ParserCard.required_vos: card/ParserCard.v base/PyStr.vos base/Json.vos card/Markup.vos
